@@ -78,7 +78,7 @@ func (r *FnRun) assumeWraps(st *State, a, b *V) {
 
 // varargs reads the i-th element of a variadic []any argument.
 func (r *FnRun) sliceElem(st *State, s *V, i int, et types.Type) *V {
-	return st.load(st.elemLoc(s.Arr, foldArith("+", s.Off, sInt(int64(i))), et))
+	return st.load(st.elemLoc(s.Arr, st.ixTerm(s.Off, sInt(int64(i))), et))
 }
 
 func constString(instr ssa.Instruction, argIdx int) (string, bool) {
@@ -200,7 +200,7 @@ func init() {
 
 	// ---- locks ----
 	lockOp := func(name string, need string, set string, what string) *model {
-		return &model{doc: what, fams: []string{"held"}, fn: func(r *FnRun, st *State, fr *frame, instr ssa.Instruction, args []*V, k func(*State, *V)) {
+		return &model{doc: what, fams: []string{"held", "lockacq"}, fn: func(r *FnRun, st *State, fr *frame, instr ssa.Instruction, args []*V, k func(*State, *V)) {
 			id := identityLeaves(args[0])[0]
 			r.addLockCand(id)
 			held := sSel(st.comp("held", 1, "Int"), id)
@@ -212,6 +212,7 @@ func init() {
 			}
 			st.writeLeaf("held", []string{id}, "Int", set)
 			if set != "0" {
+				st.writeLeaf("lockacq", []string{id}, "Int", "(+ "+sSel(st.comp("lockacq", 1, "Int"), id)+" 1)")
 				r.lockInvAcquire(st, fr, instr, id)
 			}
 			k(st, unit())
